@@ -195,6 +195,53 @@ func TestKnownFindings(t *testing.T) {
 	}
 }
 
+// fixedTrees: hand-derived expectations for programs behind repaired defects (regression cases). The
+// fragments must appear in this order in the tree's shape rendering (kind, role, value per line).
+var fixedTrees = []struct {
+	src   string
+	vers  []px.Ver
+	frags []string
+}{
+	// PHP: only "0" and decimal numbers without a leading zero are integer keys in "$a[...]" (1c70be3)
+	{"<?php echo \"$a[01] $a[00] $a[0] $a[10] $a[007]\";", []px.Ver{px.V56, px.V74},
+		[]string{`Dim: ScalarString "01"`, `Dim: ScalarString "00"`, `Dim: ScalarLnumber "0"`, `Dim: ScalarLnumber "10"`, `Dim: ScalarString "007"`}},
+	{"<?php echo \"$a[-0] $a[-01] $a[-1] $a[-10]\";", []px.Ver{px.V74},
+		[]string{`Dim: ScalarString "-0"`, `Dim: ScalarString "-01"`, `Dim: ExprUnaryMinus`, `Expr: ScalarLnumber "1"`, `Dim: ExprUnaryMinus`, `Expr: ScalarLnumber "10"`}},
+	// "$a->b->c": one property, then literal text (e08121b)
+	{"<?php \"$a->b->c $d[1]->g\";", []px.Ver{px.V56, px.V74},
+		[]string{`ExprPropertyFetch`, `Prop: Identifier "b"`, `ScalarEncapsedStringPart "->c "`, `ExprArrayDimFetch`, `ScalarEncapsedStringPart "->g"`}},
+	// odd backslash runs (5405aeb)
+	{"<?php \"\\\\\\$a $b\";", []px.Ver{px.V56, px.V74}, []string{`ScalarEncapsedStringPart "\\\\\\$a "`, `Identifier "$b"`}},
+}
+
+func TestFixedTrees(t *testing.T) {
+	if harness.Shard() != 0 {
+		t.Skip("shard 0 only")
+	}
+	for _, fc := range fixedTrees {
+		for _, v := range fc.vers {
+			src := []byte(fc.src)
+			r := px.Parse(src, v, true)
+			harness.Eval()
+			if r.Panic != "" || len(r.Errs) > 0 || r.Root == nil {
+				harness.Failf(t, "fixed/valid-rejected", src, meta(v), "[%s] valid program rejected: %s%s: %q", v, r.Panic, px.ErrString(r.Errs), fc.src)
+				continue
+			}
+			shape := astx.Shape(r.Root)
+			rest := shape
+			for _, f := range fc.frags {
+				i := strings.Index(rest, f)
+				if i < 0 {
+					harness.Failf(t, "fixed/tree", src, meta(v), "[%s] %q: the tree does not contain %q (after the preceding expected nodes); tree:\n%s", v, fc.src, f, shape)
+					break
+				}
+				rest = rest[i+len(f):]
+			}
+			harness.NonTrivial([]byte(v.String()+fc.src), fmt.Sprintf("[fixed tree, %s] %q", v, fc.src))
+		}
+	}
+}
+
 func TestReplay(t *testing.T) {
 	path := harness.ReplayPath()
 	if path == "" {
